@@ -26,7 +26,9 @@ RULE = (
     "content are checkable. After every call: ValueError iff invalid, nothing executed and counters "
     "unchanged on rejection, one result per circuit in order with >= requested shots of register "
     "length, exact counter growth, tracker returns the inner runner's objects and writes matching "
-    "records. Non-trivial history: a rejected call between two successful ones."
+    "records. Non-trivial history: a rejected call between two successful ones. Circuits given to plain runners and simulators "
+    "may contain phase-only operations; one simulator kind keeps the base class's default native predicate; single requests of "
+    "1000..150001 shots occur where producing them is cheap."
 )
 ASSUMPTIONS = [
     "circuits have width >= 1 (the library cannot represent 0-qubit registers); batches hold >= 1 circuit",
